@@ -67,7 +67,7 @@ def single_plain_run(beh):
         ops.count("startTestRun") == 1
         and ops and ops[0] in ("startTestRun", "setff")
         and ops[-1] == "stopTestRun"
-        and not any(o in ("stop", "tags", "time", "done", "progress") for o in ops)
+        and not any(o in ("stop", "tags", "time", "done", "progress", "subtest") for o in ops)
         and all(h["c"]["t"] == "none" or any(x["c"]["op"] == "startTest" and x["c"]["t"] == h["c"]["t"] for x in beh["hist"]) for h in beh["hist"])
     )
 
